@@ -30,22 +30,28 @@ from vlib.core import Failure, Outcome, exc_failure
 ID = 'C13'
 LEVEL = 'exploration'
 RULE = ('case = (result kind out of 12: equal / approx-equal / Student / chi-square / Bonferroni / '
-        'Holm-Bonferroni / failed evaluation on generated datasets [scalar to 3-D, edge / centre / no '
-        'bins, 1-3 compared datasets, generated pattern of identical / near / far bins, 1/8 with '
-        'zeros, NaN, inf], metadata [1-3 samples, missing keys], external [0-3 user templates], '
-        'statistics of tasks / tests / tests by labels [0-5 task sections with real nested results]; '
-        '1/3 of the cases steered to an all-successful result) + history of 1-12 read-only '
-        'operations drawn from: bool, oracles, statistics accessors (nb_rejected, per_key, '
-        'classification_counts, classify[status], ...), representation with one of 7 representers '
-        'at one of 6 verbosities, Rst.format_result / format_report, fingerprint, repr/str, '
-        'pickle (protocols 2-5) / deepcopy / copy round trip, re-evaluation, and (thorough) '
-        'matplotlib drawing. Oracle: verdict and deep snapshot (key sets of mappings, array bytes, '
-        'float bit patterns) after every step equal the initial ones; accessor values equal those '
-        'of a freshly built twin; re-evaluation and copies have an equal snapshot. All single '
-        'operations (and in the thorough tier all ordered pairs) are also enumerated on a fixed '
-        'catalogue of results of every kind. non-trivial = a history in which a representation / '
-        'formatting / drawing step that did not raise is followed by an explicit verdict or '
-        'statistics read; distinct = (kind, verdict, operation sequence)')
+        'Holm-Bonferroni / failed evaluation on generated datasets [scalar to 3-D, 1-4 cells per dimension, '
+        'edge / centre / no bins, 1-3 compared datasets, generated per-bin pattern identical / near / far, '
+        '1/8 of them with zeros, NaN, inf], metadata [1-3 samples, missing keys], external [0-3 user '
+        'templates], statistics of tasks / tests / tests by labels [0-5 task sections with real nested '
+        'results]; 1/3 of the cases steered to an all-successful result; 4 test descriptions) + history '
+        'of 1-12 read-only operations, weights: representation with one of 7 representers at one of '
+        '6 verbosities x4, Rst.format_result / format_report x3, bool x2, oracles x1, statistics '
+        'accessor (test_pvalue, chi2_per_ndf, nb_rejected, rejected_proportion, sort_ordering, '
+        'per_key, only_failed_comparisons, classification_counts, classify[status], '
+        'nb_missing_labels ...) x2, fingerprint, repr/str of result / test / datasets, pickle '
+        '(protocols 2-5), deepcopy x2, copy, re-evaluation; 2/3 of the histories end with an explicit '
+        'verdict / statistics read; thorough: 5 % also contain one matplotlib drawing. Oracle: '
+        'evaluating does not edit the test; a second build from the same numbers has an equal '
+        'snapshot; after every step the verdict and the deep snapshot of the result (mapping keys '
+        'in order, array bytes, float bit patterns, attribute sets; reaches test, datasets, nested '
+        'results, templates) equal the initial ones; accessor values equal those read on a freshly '
+        'built twin; re-evaluations and copies have an equal snapshot and verdict. Every single '
+        'operation (thorough: every ordered pair of a reduced set) is also enumerated on a fixed '
+        'catalogue of 33 results covering every kind with both verdicts. non-trivial = a history in '
+        'which a representation / formatting / drawing step that did not raise is followed by an '
+        'explicit verdict or statistics read that did not raise; distinct = (kind, verdict, '
+        'operation sequence with parameters)')
 ASSUMPTIONS = [
     'an exception raised by a read-only operation is not a violation of this property (rendering '
     'defects belong to C12): it is counted in the class raised:<operation> and the state is still '
@@ -59,13 +65,16 @@ ASSUMPTIONS = [
     'statistics tests whose evaluation raises the documented TestStatsTestsByLabelsException have no '
     'result and are counted as no-result',
 ]
-BUDGET = {'quick': {'cases': 8000, 'shards': 16, 'seconds': 150, 'shrink_s': 40},
-          'thorough': {'cases': 300000, 'shards': 16, 'seconds': 1000, 'shrink_s': 60}}
-FLOORS = {'nontrivial': 0.45, 'verdict:true': 0.25, 'verdict:false': 0.25,
-          'stats-all-success': 0.03, 'repr-then-verdict-read': 0.45, 'steps>=6': 0.3,
-          'op:repr': 0.45, 'op:rst': 0.35, 'op:pickle': 0.15, 'op:evaluate': 0.15,
-          'op:counts': 0.2, 'op:fingerprint': 0.15,
-          **{f'kind:{kind}': 0.04 for kind in obsgen.KINDS}}
+BUDGET = {'quick': {'cases': 20000, 'shards': 16, 'seconds': 600, 'shrink_s': 40},
+          'thorough': {'cases': 300000, 'shards': 16, 'seconds': 900, 'shrink_s': 60}}
+FLOORS = {'nontrivial': 0.35, 'repr-then-verdict-read': 0.35, 'verdict:true': 0.25, 'verdict:false': 0.25,
+          'stats-all-success': 0.08, 'steps>=6': 0.25,
+          'op:repr': 0.4, 'op:rst': 0.3, 'op:pickle': 0.08, 'op:evaluate': 0.08, 'op:counts': 0.2,
+          'op:fingerprint': 0.08, 'op:deepcopy': 0.2, 'op:str': 0.1, 'op:oracles': 0.15,
+          'datasets:scalar': 0.04, 'datasets:3d': 0.05, 'datasets:bins': 0.12,
+          **{f'kind:{kind}': 0.035 for kind in obsgen.KINDS},
+          **{f'rep:{rep}': 0.05 for rep in ('table', 'fulltable', 'plot', 'fullplot', 'full')},
+          **{f'verbosity:{verb}': 0.06 for verb in range(6)}}
 
 REPRESENTERS = {
     'table': rpr.TableRepresenter, 'fulltable': rpr.FullTableRepresenter,
@@ -81,21 +90,26 @@ READ_OPS = ('bool', 'oracles', 'counts')         # explicit verdict / statistics
 # --------------------------------------------------------------------------
 # generator
 
-def _op_strategy():
-    verb = st.integers(0, 5)
-    rep = st.sampled_from(sorted(REPRESENTERS))
-    view = st.fixed_dictionaries({'op': st.just('repr'), 'rep': rep, 'verb': verb})
-    rst = st.fixed_dictionaries({'op': st.just('rst'), 'rep': st.sampled_from(RST_REPRESENTERS),
-                                 'verb': verb, 'report': st.booleans()})
-    alts = [view, view, view, rst, rst,
-            st.just({'op': 'bool'}), st.just({'op': 'oracles'}),
-            st.fixed_dictionaries({'op': st.just('counts'), 'which': st.integers(0, 7)}),
-            st.just({'op': 'fingerprint'}),
-            st.fixed_dictionaries({'op': st.just('str'), 'which': st.integers(0, 3)}),
-            st.fixed_dictionaries({'op': st.just('pickle'), 'proto': st.integers(2, 5)}),
-            st.sampled_from([{'op': 'deepcopy'}, {'op': 'deepcopy'}, {'op': 'copy'}]),
-            st.just({'op': 'evaluate'})]
-    return st.one_of(*alts)
+_OP_WEIGHTS = (['repr'] * 4 + ['rst'] * 3 + ['bool'] * 2 + ['oracles'] + ['counts'] * 2
+               + ['fingerprint', 'str', 'pickle', 'deepcopy', 'deepcopy', 'copy', 'evaluate'])
+
+
+@st.composite
+def _op_strategy(draw):
+    name = draw(st.sampled_from(_OP_WEIGHTS))
+    if name == 'repr':
+        return {'op': name, 'rep': draw(st.sampled_from(sorted(REPRESENTERS))),
+                'verb': draw(st.integers(0, 5))}
+    if name == 'rst':
+        return {'op': name, 'rep': draw(st.sampled_from(RST_REPRESENTERS)),
+                'verb': draw(st.integers(0, 5)), 'report': draw(st.booleans())}
+    if name == 'counts':
+        return {'op': name, 'which': draw(st.integers(0, 7))}
+    if name == 'str':
+        return {'op': name, 'which': draw(st.integers(0, 3))}
+    if name == 'pickle':
+        return {'op': name, 'proto': draw(st.integers(2, 5))}
+    return {'op': name}
 
 
 @st.composite
@@ -104,11 +118,15 @@ def _case(draw, tier):
     steer = draw(st.sampled_from([True, None, None]))
     spec = dict(draw(obsgen.spec_strategy(kind, steer)),
                 description=draw(st.sampled_from(obsgen.DESCRIPTIONS)))
-    nops = draw(st.sampled_from([1, 2, 3, 4, 6, 6, 8, 10, 12]))
+    nops = draw(st.sampled_from([1, 2, 3, 4, 5, 6, 6, 8, 10, 11]))
     ops = draw(st.lists(_op_strategy(), min_size=nops, max_size=nops))
+    tail = draw(st.sampled_from([None, None, 'bool', 'bool', 'oracles', 'counts']))
+    if tail:        # two thirds of the histories end with an explicit verdict / statistics read
+        ops.append({'op': tail, 'which': draw(st.integers(0, 7))} if tail == 'counts'
+                   else {'op': tail})
     if tier == 'thorough':
-        # drawing costs ~0.2 s: at most one such step per history, in ~2 % of the histories
-        if draw(st.integers(0, 49)) == 0:
+        # drawing costs ~0.1 s: at most one such step per history, in ~5 % of the histories
+        if draw(st.integers(0, 19)) == 0:
             ops.insert(draw(st.integers(0, len(ops) - 1)),
                        {'op': 'mpl', 'verb': draw(st.sampled_from([2, 4]))})
     return {'kind': kind, 'spec': spec, 'ops': ops}
@@ -194,7 +212,7 @@ def enumerations(tier):
     def singles():
         for kind, spec in catalogue():
             for opn in op_variants(with_mpl=(tier == 'thorough')):
-                yield {'kind': kind, 'spec': spec, 'ops': [opn, {'op': 'bool'}]}
+                yield {'kind': kind, 'spec': spec, 'ops': [opn, {'op': 'bool'}], 'origin': 'enum'}
 
     def pairs():
         # ordered pairs over a reduced operation set (one verbosity per behaviour class)
@@ -204,7 +222,8 @@ def enumerations(tier):
         for kind, spec in catalogue():
             for one in reduced:
                 for two in reduced:
-                    yield {'kind': kind, 'spec': spec, 'ops': [one, two, {'op': 'oracles'}]}
+                    yield {'kind': kind, 'spec': spec, 'ops': [one, two, {'op': 'oracles'}],
+                           'origin': 'enum'}
     enums = [('every-single-operation-on-the-catalogue', singles, True)]
     if tier == 'thorough':
         enums.append(('ordered-pairs-of-operations-on-the-catalogue', pairs, True))
@@ -464,6 +483,8 @@ def run_case(case):
         ses = _Session(kind, spec, out)
     except TestStatsTestsByLabelsException:
         out.labels.append('no-result')          # documented: a requested label that no test carries
+        if case.get('origin') == 'enum':
+            out.labels = ['enum/' + lab for lab in out.labels]
         return out
     out.labels.append('verdict:true' if ses.verdict0 else 'verdict:false')
     if kind in obsgen.STATS_KINDS and ses.verdict0:
@@ -491,7 +512,7 @@ def run_case(case):
         name, raised = ses.apply(opn, step)
         done.append(_op_text(opn))
         out.labels.append(f'op:{name}')
-        if name == 'repr':
+        if name in ('repr', 'rst'):
             out.labels.append(f'rep:{opn["rep"]}')
             out.labels.append(f'verbosity:{opn["verb"]}')
         if not raised:
@@ -508,8 +529,16 @@ def run_case(case):
         out.labels.append('nontrivial')
         out.nontrivial = True
         out.key = jsonio.digest({'kind': kind, 'verdict': ses.verdict0, 'ops': ops})
+    if case.get('origin') == 'enum':
+        # the class floors describe the generated histories only
+        out.labels = ['enum/' + lab for lab in out.labels]
     return out
 
+
+KNOWN_PREDICATES = {
+    # summaries of tasks / tests whose classification is a defaultdict (see proposed_fixes/)
+    'task_or_test_summary': lambda case, failure: case['kind'] in ('stats_tasks', 'stats_tests'),
+}
 
 MANIFEST = {
     'text': ('Generated histories (Hypothesis) of read-only operations -- verdict and statistics reads, '
